@@ -134,3 +134,104 @@ def backward_slice(v, limit=2000, through_loads=False, phi_control=True):
                 if el[0] in ("*", "[]"):
                     stack.append(el[1])
     return out
+
+
+# ---- a small path-sensitive walk: phis are resolved along the path taken and comparisons with constants narrow an
+# interval per SSA value, so that  fd = open(); if (fd < 0) return; ... x = phi(-1, fd); if (x >= 0) close(x)  is followed
+# only along its feasible branches
+def _cmp_interval(pred, c):
+    INF = 1 << 70
+    return {"slt": (-INF, c - 1), "sle": (-INF, c), "sgt": (c + 1, INF), "sge": (c, INF), "eq": (c, c),
+            "ult": (0, c - 1), "ule": (0, c), "ugt": (c + 1, INF), "uge": (c, INF)}.get(pred)
+
+
+_NEG = {"slt": "sge", "sle": "sgt", "sgt": "sle", "sge": "slt", "eq": "ne", "ne": "eq", "ult": "uge", "ule": "ugt", "ugt": "ule", "uge": "ult"}
+
+
+def feasible_reach(f, start, stop, targets, limit=20000):
+    """first block of `targets` reachable from block `start` without entering a block of `stop`, following only branches
+    that are consistent with the comparisons (against constants) already taken on the path; None if there is none"""
+    INF = 1 << 70
+
+    def resolve(v, env):
+        seen = 0
+        while v.is_inst and v.op in ("sext", "zext", "trunc", "bitcast"):
+            v = v.ops[0]
+        while v.is_inst and v.op == "phi" and id(v) in env and seen < 8:
+            v = env[id(v)]
+            while v.is_inst and v.op in ("sext", "zext", "trunc", "bitcast"):
+                v = v.ops[0]
+            seen += 1
+        return v
+
+    def initial(block):
+        iv = {}
+        for (c, outcome, br) in f.guards_at(block):
+            if c.is_inst and c.op == "icmp" and c.ops[1].is_const and c.ops[1].is_int and outcome in (True, False):
+                p = c.pred if outcome else _NEG.get(c.pred)
+                r = _cmp_interval(p, c.ops[1].sval)
+                if r:
+                    v = c.ops[0]
+                    while v.is_inst and v.op in ("sext", "zext", "trunc", "bitcast"):
+                        v = v.ops[0]
+                    lo, hi = iv.get(id(v), (-INF, INF))
+                    iv[id(v)] = (max(lo, r[0]), min(hi, r[1]))
+        return iv
+
+    work = [(start, None, {}, initial(start))]
+    visited = set()
+    steps = 0
+    while work:
+        b, pred, env, iv = work.pop()
+        steps += 1
+        if steps > limit:
+            return b
+        key = (id(b), id(pred))
+        if key in visited:
+            continue
+        visited.add(key)
+        if b in stop:
+            continue
+        if b in targets:
+            return b
+        if pred is not None:
+            env = dict(env)
+            for i in b.insts:
+                if i.op != "phi":
+                    break
+                for val, p in zip(i.ops, i.x["inc"]):
+                    if p is pred:
+                        env[id(i)] = val
+        t = b.term
+        succs = list(b.succs)
+        if t.op == "br" and len(t.x["succ"]) == 2:
+            c = t.ops[0]
+            if c.is_inst and c.op == "icmp" and c.ops[1].is_const and c.ops[1].is_int:
+                v = resolve(c.ops[0], env)
+                k = c.ops[1].sval
+                if v.is_const and v.is_int:
+                    lo, hi = v.sval, v.sval
+                else:
+                    lo, hi = iv.get(id(v), (-INF, INF))
+                for taken, s_ in ((True, t.x["succ"][0]), (False, t.x["succ"][1])):
+                    p = c.pred if taken else _NEG.get(c.pred)
+                    if p == "ne":
+                        if lo == hi == k:
+                            continue
+                        work.append((s_, b, env, iv))
+                        continue
+                    r = _cmp_interval(p, k)
+                    if r is None:
+                        work.append((s_, b, env, iv))
+                        continue
+                    nlo, nhi = max(lo, r[0]), min(hi, r[1])
+                    if nlo > nhi:
+                        continue            # infeasible on this path
+                    iv2 = dict(iv)
+                    if not (v.is_const):
+                        iv2[id(v)] = (nlo, nhi)
+                    work.append((s_, b, env, iv2))
+                continue
+        for s_ in succs:
+            work.append((s_, b, env, iv))
+    return None
